@@ -351,3 +351,98 @@ def run(pid, build_replay):
                                            f"(wire record not a tuple at a Rust tuple / map entry)",
                                   "vectors": len(cases), "disagreements": len(failures), "labelled": "bounded, NOT proved",
                                   "wall_s": round(time.time() - t0, 1)}]}
+
+
+QUOTA_TYPES = [0, 1, 2, 3, 4, 5, 6, 7, 8, 9, 11, 13, 14, 15, 17, 18, 19, 21, 23, 24, 25, 33]
+
+
+def run_quota(pid, build_replay):
+    """C07 on the same corpus: for seeded messages decoded at native Rust types, the cost measured under a generous quota
+    does not depend on how generous it is, a quota pair equal to the measured cost reproduces the unmetered result, and one
+    unit less on either counter is a QUOTA error (never another error, never a different value)."""
+    t0 = time.time()
+    exe, err = build_replay()
+    if not exe:
+        return {"undecided": [f"bounded stand-in: the real crate does not build: {err}"], "failures": []}
+    scale = int(os.environ.get("VERIF_STANDIN_SCALE", "1"))
+    rnd = random.Random(7500 + int(os.environ.get("VERIF_SEED", "0") or 0))
+    msgs = []
+    for k in QUOTA_TYPES:
+        rust, exps, env, norm = NATIVE[k]
+        for _ in range(40 * (10 if scale > 1 else 1)):
+            tys = [wire_of(rnd, e, env, False) for e in exps]
+            if rnd.random() < 0.25:
+                tys = tys + [gen_type(rnd, 2)]                       # a surplus argument: skipped, charged to the skipping quota
+            try:
+                vals = [gen_val(rnd, t, env) for t in tys]
+                msgs.append((k, rust, Enc(env).message(tys, vals).hex(), f"values {vals} of wire types ({', '.join(show(t) for t in tys)})"))
+            except (KeyError, ValueError, IndexError):
+                continue
+
+    def ask(lines):
+        p = subprocess.run([exe], input="\n".join(lines) + "\n", capture_output=True, text=True, timeout=1800)
+        return [l.strip() for l in p.stdout.splitlines()]
+
+    B1, B2 = 10 ** 12, 3 * 10 ** 12 + 11
+    first = ask([x for k, _, h, _ in msgs for x in (f"nq {k} {h} - -", f"nq {k} {h} {B1} {B1}", f"nq {k} {h} {B2} {B2}")])
+    if len(first) != 3 * len(msgs):
+        return {"undecided": [f"bounded stand-in: replay produced {len(first)} lines for {3 * len(msgs)} commands"], "failures": []}
+    failures, second, plan = [], [], []
+
+    def fail(k, rust, h, desc, cmd, exp, got):
+        failures.append({
+            "obligation": "bounded-standin::quotas never change the result / cost is quota independent (native types)", "unit": "bounded-standin",
+            "item": "decode_args_with_config_debug", "fn": "decode_args_with_config_debug", "kind": "bounded-standin",
+            "file": "rust/candid/src/de.rs", "line": 0, "source_text": "", "clause": None,
+            "verifier_message": f"{desc} decoded at {rust}: `{cmd}` gave `{got[:200]}`, expected {exp}",
+            "witness": {"confirmed": True, "function": "candid::utils::decode_args_with_config_debug", "input": cmd[:600],
+                        "expected": exp, "got": got[:300], "replay_cmd": f"echo '{cmd}' | {exe}"}})
+
+    nok = 0
+    for j, (k, rust, h, desc) in enumerate(msgs):
+        free, a, b = first[3 * j:3 * j + 3]
+        if not free.startswith("ok "):
+            if a.startswith("ok ") or b.startswith("ok "):
+                fail(k, rust, h, desc, f"nq {k} {h} {B1} {B1}", "the unmetered outcome (an error)", a)
+            continue
+        nok += 1
+        val = free[3:].split(" | ")[0]
+        if not (a.startswith("ok ") and b.startswith("ok ")):
+            fail(k, rust, h, desc, f"nq {k} {h} {B1} {B1}", "ok (a generous quota cannot make decoding fail)", a + " / " + b)
+            continue
+        (va, ca), (vb, cb) = a[3:].split(" | "), b[3:].split(" | ")
+        if va != val or vb != val:
+            fail(k, rust, h, desc, f"nq {k} {h} {B1} {B1}", f"the unmetered value {val[:80]}", va if va != val else vb)
+            continue
+        if ca != cb:
+            fail(k, rust, h, desc, f"nq {k} {h} {B2} {B2}", f"the same cost {ca} as under the quotas {B1}", cb)
+            continue
+        cd, cs = [int(x) for x in ca.split(" ")]
+        second += [f"nq {k} {h} {cd} {cs}"]
+        plan.append((j, "exact", val, cd, cs))
+        if cd > 0:
+            second += [f"nq {k} {h} {cd - 1} {cs}"]
+            plan.append((j, "dec-1", val, cd, cs))
+        if cs > 0:
+            second += [f"nq {k} {h} {cd} {cs - 1}"]
+            plan.append((j, "skip-1", val, cd, cs))
+        if len(failures) >= 3:
+            break
+    outs = ask(second) if second and len(failures) < 3 else []
+    for cmd, (j, what, val, cd, cs), o in zip(second, plan, outs):
+        k, rust, h, desc = msgs[j]
+        if what == "exact":
+            if not o.startswith("ok ") or o[3:].split(" | ")[0] != val:
+                fail(k, rust, h, desc, cmd, f"ok with the unmetered value (quotas = measured cost {cd} / {cs})", o)
+        elif o != "err QUOTA":
+            fail(k, rust, h, desc, cmd, f"a quota error (one unit below the measured cost {cd} / {cs})", o)
+        if len(failures) >= 3:
+            break
+    return {"failures": failures[:3], "undecided": [], "obligations": 0, "discharged": 0, "trusted": [],
+            "cmds": [f"{exe} < native messages under quota sweeps (bounded stand-in)"],
+            "backends": ["BOUNDED stand-in (real decoder at native Rust types under quota sweeps; not a proof)"], "samples": [],
+            "bounded_standins": [{"functions": ["de.rs metering as a whole, through decode_args_with_config_debug at native Rust types"],
+                                  "bound": f"{len(msgs)} seeded messages at {len(QUOTA_TYPES)} native Rust types ({nok} decode): no quota, two generous quota pairs (same value, "
+                                           f"same cost), quotas equal to the measured cost (same value), one unit less on either counter (a QUOTA error)",
+                                  "vectors": 3 * len(msgs) + len(second), "disagreements": len(failures), "labelled": "bounded, NOT proved",
+                                  "wall_s": round(time.time() - t0, 1)}]}
